@@ -22,7 +22,7 @@
 // Tolerances (frozen, DESIGN section 5/C13):
 //   algorithms among themselves 1e-11*(1+|logL|); against R1/R2 1e-9*(1+|logL|); posteriors >= -1e-12, rows 1 +- 1e-9,
 //   against the reference 1e-8; derivatives 1e-6 relative + 1e-9 against the dual-number reference;
-//   finite differences (Richardson, h1 = 2^-7, h2 = 2^-5): 1e-3*(1+|d|+L) (a coarse sign / missing-term check).
+//   finite differences (Richardson, h1 = 2^-7, h2 = 2^-5): 1e-4*(1+|d|+L) (a coarse sign / missing-term check; worst seen 2e-6).
 //   The worst observed value of each, as a fraction of its tolerance, is recorded with c.observe.
 #include "common/pbt.hpp"
 #include "common/bppcommon.hpp"
@@ -51,7 +51,7 @@ typedef long double LD;
 const double LN10 = 2.302585092994045684;
 const double NaN = std::numeric_limits<double>::quiet_NaN();
 
-const double TOL_ALG = 1e-11, TOL_REF = 1e-9, POST_NEG = 1e-12, POST_SUM = 1e-9, POST_REF = 1e-8, DER_REL = 1e-6, DER_ABS = 1e-9, FD_TOL = 1e-3;
+const double TOL_ALG = 1e-11, TOL_REF = 1e-9, POST_NEG = 1e-12, POST_SUM = 1e-9, POST_REF = 1e-8, DER_REL = 1e-6, DER_ABS = 1e-9, FD_TOL = 1e-4;
 const double STAT_TOL = 1e-9, ROW_TOL = 1e-12;
 
 // =================================================================================== numeric description of a model
@@ -736,7 +736,7 @@ struct Hist {
 vector<size_t> genBreakSubset(vf::Ctx& c, int L) { vector<size_t> bp; int mode = static_cast<int>(c.below(3)); for (int t = 1; t < L; ++t) if (mode == 0 ? false : mode == 1 ? c.below(3) == 2 : c.flag()) bp.push_back(static_cast<size_t>(t)); return bp; }
 }  // namespace
 
-LAW(L5_history, RC, 4000, 200000, 520, "a changed parameter value or new break points between two derivative queries, or >=1 break point, or a zero transition, or an emission below 1e-100") {
+LAW(L5_history, RC, 5000, 250000, 520, "a changed parameter value or new break points between two derivative queries, or >=1 break point, or a zero transition, or an emission below 1e-100") {
   bool hasZero, hasExtreme;
   GenOpt o; o.maxL = 8;
   Spec cur = genSpec(c, o, hasZero, hasExtreme);
